@@ -108,7 +108,7 @@ Definition T_SETUP := 1.  Definition T_REFRESH := 2.  Definition T_SHOW := 3.  D
 Definition T_PROMPT := 5. Definition T_INPUT := 7.    Definition T_CLOSED := 8. Definition T_MODAL_ENTER := 9.
 Definition T_MODAL_RETURN := 10. Definition T_REFUSED := 11. Definition T_READY := 12. Definition T_GOT := 13.
 Definition T_MARK := 14.  Definition T_STACK := 15.   Definition T_ASK := 16.
-Definition T_OP := 17.
+Definition T_OP := 17. Definition T_REQ := 18. Definition T_ACTION := 19.
 (* stack primitives, T_STACK [kind; entry id; screen; args; modal]:  ScreenStack.append / add_first / pop *)
 Definition K_APPEND := 0. Definition K_ADD_FIRST := 1. Definition K_POP := 2.
 (* scheduler operations, T_OP [kind; screen; args], logged on entry *)
@@ -364,6 +364,7 @@ Section Screens.
     if sc_prompt_none (spec scr)
     then wr (upd_scr scr (fun s => s <| ss_err := 0 |>))              (* prompt() returned None *)
     else
+      rd (fun u => ev T_REQ [scr; args; length (st_ih u)]) ;;        (* prompt(args) returned a prompt *)
       wr (upd_scr scr (fun s => s <| ss_input_args := args |>)) ;;
       new_input_handler (Some scr) scr true (fun n => handler_get_input n (sc_skip_check (spec scr))).
 
@@ -392,9 +393,10 @@ Section Screens.
   Definition process_input (scr : nat) (line : str) : sprog :=
     wr (fun u => u <| st_rb := false |>) ;;
     PTry (call_input scr line ;; wr (fun u => u <| st_rb := true |>))
-         raise_exception_signal ;;                       (* except Exception: enqueue ExceptionSignal; return *)
+         (raise_exception_signal ;; wr (fun u => u <| st_rb := false |>)) ;;   (* except Exception: enqueue ExceptionSignal; return *)
     rd (fun u => if st_rb u then
       let act := action_of (st_rv u) in
+      ev T_ACTION [scr; match act with ANoop => 0 | ARedraw => 1 | AClose => 2 | AQuit => 3 | AError => 4 end] ;;
       wr (upd_scr scr (fun s => match act with AError => s <| ss_err := S (ss_err s) |> | _ => s <| ss_err := 0 |> end)) ;;
       rd (fun u => process_input_result act (Nat.modulo (ss_err (scr_of u scr)) 5 =? 0)%nat)
     else PRet).
